@@ -36,6 +36,10 @@ QUICK: list[tuple[str, str, int, int, str, str, int, dict[str, Any]]] = [
     ('circuit', '', 2, 1, 'line', 'rigetti', 1, dict(depth=5, workers=2)),
     ('circuit', '', 3, 0, 'ring', 'cx_u3', 1, dict(depth=6, measure='end', barriers=1, workers=2)),
     ('circuit', '', 3, 0, 'line', 'cz_u3', 3, dict(depth=5, p3=0.0, workers=4)),
+    # a fully entangling circuit narrower than an asymmetric machine at level 3:
+    # blocks are resynthesised after mapping while the placement is not the
+    # identity, so each block must get the coupling of its *placed* qudits
+    ('circuit', '', 3, 2, 'custom', 'cx_u3', 3, dict(entangle=True, workers=4, edges=[[0, 1], [0, 2], [1, 3], [2, 3], [3, 4]])),
     ('unitary', 'haar', 2, 0, 'line', 'cz_rz_sx', 1, dict(workers=2)),
     ('unitary', 'clifford', 2, 0, 'line', 'sqisw_u3', 2, dict(workers=2)),
     ('unitary', 'haar', 1, 0, 'line', 'isw_rz_rx', 1, dict(workers=1)),
@@ -62,7 +66,17 @@ def make_case(seed: int, idx: int, tpl: tuple[Any, ...]) -> dict[str, Any]:
     rng = core.rng_for(seed, PID, 0, idx)
     radix = int(o.get('radix', 2))
     rad = [radix] * n
-    if kind == 'circuit':
+    if kind == 'circuit' and o.get('entangle'):
+        from vlib import gen
+        ops: list[list[Any]] = [['H', [0], []]]
+        pairs = [(a, b) for a in range(n) for b in range(a + 1, n)]
+        seq = [pairs[i % len(pairs)] for i in (0, len(pairs) - 1, 1, 0, len(pairs) - 1)] if n == 3 else pairs + pairs[:2]
+        for a, b in seq:
+            ops.append(['CX', [a, b], []])
+            ops.append(['U3', [a], gen.rand_params(rng, 3, 'generic')])
+            ops.append(['U3', [b], gen.rand_params(rng, 3, 'generic')])
+        inp = {'kind': 'circuit', 'radixes': rad, 'ops': ops}
+    elif kind == 'circuit':
         inp = cc.gen_circuit_spec(
             rng, n, int(o.get('depth', 6)), radix=radix, p3=o.get('p3', 0.1),
             force3=o.get('force3', False), barriers=o.get('barriers', 0),
@@ -74,7 +88,9 @@ def make_case(seed: int, idx: int, tpl: tuple[Any, ...]) -> dict[str, Any]:
         inp = cc.gen_state_spec(rng, label, rad)
     else:
         inp = cc.gen_system_spec(rng, int(label), rad, orthogonal=o.get('orthogonal', True))
-    model = cc.gen_model_spec(rng, n + extra, graph, gs, radix=radix)
+    model = cc.gen_model_spec(rng, n + extra, 'line' if o.get('edges') else graph, gs, radix=radix)
+    if o.get('edges'):
+        model = dict(model, graph='custom', edges=[list(e) for e in o['edges']], all_to_all=False)
     if kind != 'circuit' and extra > 0:
         # direct synthesis is not mapped: keep the first n machine qudits
         # connected so that the target is reachable on them
